@@ -172,6 +172,51 @@ PROPS["C02"] = dict(
     assumptions=[],
 )
 
+PROPS["C08"] = dict(
+    title="Commissioning under the fail-safe is all-or-nothing (gates and roll-back step)",
+    scope="FailSafe::check_state equals the gate of the statement (armed, secured session of the arming fabric context, UpdateNOC only over CASE, present/absent "
+          "flags); every credential command (add_trusted_root_cert, add_csr_req, update_csr_req, add_noc, update_noc) is Ok only through its gate, records exactly "
+          "its flag, and on Err leaves the fail-safe state, staged root and staged key untouched; the accepted command sequences are the prescribed language "
+          "(each at most once, AddNOC after CSR+root, UpdateNOC after update-CSR, never mixed, no root after a NOC command); arm/disarm/re-arm contracts; "
+          "expire(): with a working store the result is Ok, state Idle, breadcrumb 0, the fabric is its persisted copy or absent, networks are the persisted "
+          "ones, no live PASE session is left; a store failure keeps the fail-safe armed as it was.",
+    verus=[],
+    functions=[],
+    trusted=["Fabrics::{remove, add_load, add, update} and Sessions::{remove_pase, remove_for_fabric} by contract over abstract tables (their real bodies did not close; "
+             "only Fabrics::{get, fabric, fabric_mut} are proved against the real bodies)",
+             "certificate validation and crypto stubbed to any outcome; KV/network mocks (a working store, or one that may fail on any load)"],
+    out_of_reach=["crash points and KV failures between the handlers' writes (gen_comm.rs), restart", "ACL/group state 'exactly as before arming' (depends on every async cluster handler skipping persistence while armed)"],
+    assumptions=[],
+)
+
+PROPS["C07"] = dict(
+    title="Nothing bound to a fabric outlives that fabric (safety half, roll-back path)",
+    scope="FailSafe::expire reporting a removed fabric leaves no live session of that fabric (CASE, PASE or group) over an abstract session table; "
+          "ResumableSessions::find_by_peer never yields a record of another fabric or node.",
+    verus=[],
+    functions=[],
+    trusted=["Sessions::remove_for_fabric / remove_pase, ResumableSessions::remove_for_fabric, Fabrics index allocation: by contract only (real bodies did not close in CBMC)"],
+    out_of_reach=["subscriptions, group keys, ACLs living inside Fabric (dropped with it by construction)", "peer traffic racing the removal; the reporter's 'fabric removed' predicate (async)"],
+    assumptions=[],
+)
+
+PROPS["C18"] = dict(
+    title="BTP delivers each message intact, once and in order, or fails cleanly",
+    scope="RingBuf (the byte queue under the receive window) is proved by Verus against an abstract queue for EVERY capacity and input length. Kani step contracts: "
+          "BtpHdr/HandshakeReq/HandshakeResp codecs (round trip + totality), SendWindow ack/post_send accounting, prep_tx_data (never sends when the peer's window "
+          "is exhausted, header+chunk re-decode, consecutive sequence numbers mod 256, offset advances by the chunk, first/continue/final flags), handshake "
+          "request/response processing for arbitrary bytes (accepted iff well-formed and in range; refusal changes nothing), and the hostile-peer cases "
+          "(bogus ack, window overrun, tiny MTU, zero window, bad framing, re-handshake) each refused with an error and never a panic; "
+          "BtpInner::process_outgoing never panics.",
+    verus=["ringbuf"],
+    functions=[],
+    trusted=["inside session harnesses the 3166-byte ring is replaced by an abstract FIFO model (the real RingBuf is proved against the same queue view separately)",
+             "log::max_level stubbed to Off; Instant::now stubbed"],
+    out_of_reach=["the acknowledgement deadline and scheduling of two connected ends (async Btp::run)",
+                  "process_rx for arbitrary DATA segments as one step contract and fetch_message did not close in CBMC (hostile cases are covered case by case)"],
+    assumptions=[],
+)
+
 
 # ---- harness lists come from lib/harness_index.json (tools/gen_index.py scans kani/*.rs) and the named
 # ---- obligations each harness must discharge from lib/expected.json (./verif expect-update)
